@@ -15,7 +15,7 @@ import subprocess
 from vlib import BIN, WORK, run_pair
 
 XL_PID = "XL"        # names coq/extract/ExtractXL.v, ocaml/xl_run.ml, .work/bin/xl_model, .work/XL/<subdir>
-XL_VOS = ["base/MiniGo.vo", "gen/Translated.vo", "base/Bits64.vo", "model/Sizes.vo"]
+XL_VOS = ["base/MiniGo.vo", "gen/Translated.vo", "base/Bits64.vo", "model/Sizes.vo", "model/LowEntropy.vo", "model/Wire.vo"]
 
 
 def _source_vs_model(res, out):
@@ -46,9 +46,9 @@ def _source_vs_model(res, out):
         if a != b:
             differ += 1
             fn = c.split(" ", 1)[0]
-            if fn not in seen and len(fails) < 200:
+            if fn not in seen:      # one per function, in front of whatever the driver's own oracle reported
                 seen.add(fn)
-                fails.append(dict(sig="source-differs-from-model-" + fn,
+                fails.insert(len(seen) - 1, dict(sig="source-differs-from-model-" + fn,
                                   what="the Go source of %s (translated by go2coq) returns %s where the model function it is proved equal to returns %s" % (fn, a, b),
                                   case=dict(function=fn, args=c.split(" ")[1:], source=a, model=b, case_line=c)))
     res.report.setdefault("notes", {})["source_vs_model"] = "%d cases inside the theorems' ranges compared, %d differ" % (compared, differ)
